@@ -1508,3 +1508,56 @@ def _quote_other(I, args, kw):
         raise Unsupported("urllib quote/unquote with options")
     I.use("urllib.parse.quote / unquote (uninterpreted, distinct from the *_plus functions)")
     return SStr(z3.Function("urllib_quote_or_unquote", StrSort, StrSort)(_S(I, args[0])))
+
+
+@ext(divmod)
+def _divmod(I, args, kw):
+    a, b = args
+    # (a // b, a % b) with the operators' own models (ZeroDivisionError included)
+    return (I.binop(ast.FloorDiv(), a, b), I.binop(ast.Mod(), a, b))
+
+
+# ------------------------------------------------------------------ json (C20)
+import json as _json
+
+BOX_REAL = z3.Function("box_real", z3.RealSort(), ObjSort)
+BOX_BOOL = z3.Function("box_bool", BoolSort, ObjSort)
+F_json_dumps = z3.Function("json_dumps", ObjSort, z3.IntSort(), StrSort)
+F_json_loads = z3.Function("json_loads", StrSort, ObjSort)
+
+
+def json_value(I, v):
+    """Obj-sorted denotation of a JSON-like value (numbers, strings, booleans, nil boxed; containers and opaque values as objects)."""
+    from .engine import BOX_INT, BOX_STR
+    ex = I.ex
+    if isinstance(v, bool):
+        return BOX_BOOL(z3.BoolVal(v))
+    if isinstance(v, SBool):
+        return BOX_BOOL(v.t)
+    if isinstance(v, SReal):
+        return BOX_REAL(v.t)
+    if isinstance(v, float):
+        return BOX_REAL(z3.RealVal(v))
+    return ex.box(v)
+
+
+@ext(_json.dumps)
+def _json_dumps(I, args, kw):
+    ex = I.ex
+    (v,) = args
+    extra = set(kw) - {"default", "indent"}
+    if extra:
+        raise Unsupported(f"json.dumps with {sorted(extra)}")
+    ind = kw.get("indent")
+    it = z3.IntVal(-1) if ind is None else ex.to_int_term(ind)
+    I.use("json.dumps(v, indent=..): uninterpreted text; json.loads(json.dumps(v)) == v for JSON-like v (library fact); TypeError for a value the encoder (and `default`) cannot serialise")
+    if isinstance(v, SAny) or isinstance(v, (HObj, HList, HDict)):
+        if ex.decide(ex.fresh("json_unserialisable", "bool").t):
+            ex.raise_builtin("TypeError", "Object is not JSON serializable")
+    t = json_value(I, v)
+    r = F_json_dumps(t, it)
+    key = ("json_dumps", t.sexpr(), it.sexpr())
+    if key not in ex.facts_seen:
+        ex.facts_seen.add(key)
+        ex.assume(F_json_loads(r) == t)
+    return SStr(r)
